@@ -28,11 +28,15 @@ SELF_WF = ("not attr_absent(self,'element') and is_obj(self.element) and not att
            "(is_dict(self.props) or isinstance(self.props, _PropertyDict)) and dict_wf(obj_dict(self.props)) and "
            "forall(lambda j: isinstance(val_at(obj_dict(self.props), j), _Property) and not attr_absent(val_at(obj_dict(self.props), j),'element') and "
            "is_obj(val_at(obj_dict(self.props), j).element) and not attr_absent(val_at(obj_dict(self.props), j),'required') and "
-           "not attr_absent(val_at(obj_dict(self.props), j),'name') and not attr_absent(val_at(obj_dict(self.props), j),'parent') and "
+           "(is_none(val_at(obj_dict(self.props), j).name) or is_str(val_at(obj_dict(self.props), j).name)) and not attr_absent(val_at(obj_dict(self.props), j),'parent') and "
            "(is_str(val_at(obj_dict(self.props), j).source) or is_none(val_at(obj_dict(self.props), j).source)), len(obj_dict(self.props)))")
 
+from pyvc.contracts import macro
+macro("props_wf", ["self"], SELF_WF)
+
 contract(P + "Properties.property", requires="not attr_absent(self,'element') and is_obj(element)",
-         returns="isinstance(result, _Property) and result.element is element and result.name is (name if truthy(name) else None) and result.required is False",
+         returns="isinstance(result, _Property) and result.element is element and result.name is (name if truthy(name) else None) and result.required is False and "
+                 "not attr_absent(result,'source') and not attr_absent(result,'parent')",
          result_cls="_Property", ghost={"result_fresh": True}, props=["C01", "C04", "C08"])
 
 # __getitem__: which schema governs a key (Draft-6 6.18-6.20).  declared(k) = the property whose JSON name is k;
@@ -47,7 +51,9 @@ contract(P + "Properties.__getitem__", requires=SELF_WF + " and is_str(key)",
 
 
 contract(P + "Properties.__contains__", requires=SELF_WF + " and is_str(key)", returns="is_bool(result)", result_kind="bool",
-         kinds={"key": "str"}, props=["C01", "C08"])
+         ghost={"function": "props_accepts(self, key)"},
+         kinds={"key": "str"}, props=["C01", "C08"],
+         note="callers see the functional view props_accepts(self, key) (uninterpreted): the key is covered by a declared property, a pattern, or a non-Nothing additional")
 
 contract(P + "Properties.__call__", requires=SELF_WF + " and dict_wf(value) and forall(lambda j: not is_np(val_at(value, j)), len(value))",
          returns="is_dict(result)",
